@@ -87,7 +87,7 @@ def needed_text(cpp_text: str, names: list) -> str:
 			i = j
 		i += 1
 	for fn in _all_function_names(cpp_text):
-		if fn in keep:
+		if fn in keep or any(fn.startswith(n + '_') for n in names):
 			out.extend(_function_text(cpp_text, fn))
 	return '\n'.join(out)
 
